@@ -66,7 +66,8 @@ Inductive micro (e : env) : cst -> ev -> cst -> Prop :=
 Inductive exec (e : env) (w : bool) : cst -> list ev -> cst -> Prop :=
 | x_nil s : exec e w s [] s
 | x_cons s x s1 l s2 : micro e s x s1 -> exec e w s1 l s2 -> exec e w s (x :: l) s2
-| x_silent s l s2 : w = true -> exec e w (set_enabled true s) l s2 -> exec e w s l s2.
+| x_silent s l s2 : w = true -> exec e w (set_enabled true s) l s2 -> exec e w s l s2
+| x_pairs s p l s2 : exec e w (set_pairs p s) l s2 -> exec e w s l s2.   (* bookkeeping of tlsPassthroughPairs: not observable *)
 
 Lemma exec_app e w s l1 s1 : exec e w s l1 s1 -> forall l2 s2, exec e w s1 l2 s2 -> exec e w s (l1 ++ l2) s2.
 Proof.
@@ -74,6 +75,7 @@ Proof.
   - exact H2.
   - eapply x_cons; [eassumption|]. apply IHexec. exact H2.
   - apply x_silent; [assumption|]. apply IHexec. exact H2.
+  - eapply x_pairs. apply IHexec. exact H2.
 Qed.
 
 Lemma exec_one e w s x s' : micro e s x s' -> exec e w s [x] s'.
@@ -85,6 +87,7 @@ Proof.
   - apply x_nil.
   - eapply x_cons; eassumption.
   - discriminate.
+  - eapply x_pairs. exact IHexec.
 Qed.
 
 (* ---- what one micro step does ---- *)
@@ -136,6 +139,7 @@ Proof.
   - reflexivity.
   - change (x :: l) with ([x] ++ l). rewrite held_scan_app, (mf_held _ _ _ _ (micro_all _ _ _ _ H)). exact IHexec.
   - discriminate.
+  - exact IHexec.
 Qed.
 
 Lemma exec_dirty e w s l s' : exec e w s l s' -> dirty s' = pend_scan (dirty s) l.
@@ -143,6 +147,7 @@ Proof.
   induction 1.
   - reflexivity.
   - change (x :: l) with ([x] ++ l). rewrite pend_scan_app, <- (mf_dirty _ _ _ _ (micro_all _ _ _ _ H)). exact IHexec.
+  - exact IHexec.
   - exact IHexec.
 Qed.
 
@@ -152,6 +157,7 @@ Proof.
   induction 1; intros C.
   - exact C.
   - apply IHexec. exact (mf_clean _ _ _ _ (micro_all _ _ _ _ H) C).
+  - apply IHexec. exact C.
   - apply IHexec. exact C.
 Qed.
 
@@ -166,12 +172,16 @@ Proof.
     + rewrite (IHexec pre endp ok post eq_refl). f_equal.
       rewrite (mf_nrel _ _ _ _ (micro_all _ _ _ _ H)). cbn. lia.
   - apply (IHexec pre endp ok post E).
+  - apply (IHexec pre endp ok post E).
 Qed.
 
 (* ------------------------------------------------------------------ primitives are executions *)
 Arguments do_write : simpl never.
 Arguments do_delete : simpl never.
 Arguments do_reload : simpl never.
+Arguments do_res : simpl never.
+Arguments do_del : simpl never.
+Arguments do_pt : simpl never.
 Arguments finish_reload : simpl never.
 
 Lemma do_write_exec e w k n v s : exec e w s (snd (do_write k n v s)) (fst (do_write k n v s)).
@@ -180,19 +190,46 @@ Proof. apply exec_one. eapply m_write. unfold do_write. cbn. reflexivity. Qed.
 Lemma do_delete_exec e w k n s : exec e w s (snd (do_delete k n s)) (fst (do_delete k n s)).
 Proof. apply exec_one. eapply m_delete. unfold do_delete. cbn. reflexivity. Qed.
 
+Lemma do_pt_exec e w n pt s : exec e w s (snd (do_pt n pt s)) (fst (do_pt n pt s)).
+Proof.
+  unfold do_pt. destruct pt as [h|].
+  - eapply x_pairs. apply do_write_exec.
+  - destruct (mem n (pairs s)); [eapply x_pairs; apply do_write_exec|apply x_nil].
+Qed.
+
+Lemma do_res_exec e w r s : exec e w s (snd (do_res r s)) (fst (do_res r s)).
+Proof.
+  unfold do_res.
+  pose proof (do_write_exec e w (fk_of (r_kind r)) (r_name r) (r_ver r) s) as H1.
+  destruct (do_write _ _ _ s) as [s1 l1]. cbn [fst snd] in H1.
+  destruct (r_kind r); try exact H1.
+  pose proof (do_pt_exec e w (r_name r) (r_pt r) s1) as H2.
+  destruct (do_pt _ _ s1) as [s2 l2]. cbn [fst snd] in *. eapply exec_app; eassumption.
+Qed.
+
+Lemma do_del_exec e w k n s : exec e w s (snd (do_del k n s)) (fst (do_del k n s)).
+Proof.
+  unfold do_del.
+  pose proof (do_delete_exec e w k n s) as H1.
+  destruct (do_delete k n s) as [s1 l1]. cbn [fst snd] in H1.
+  destruct k; try exact H1.
+  pose proof (do_pt_exec e w n None s1) as H2.
+  destruct (do_pt _ _ s1) as [s2 l2]. cbn [fst snd] in *. eapply exec_app; eassumption.
+Qed.
+
 Lemma do_writes_exec e w rs : forall s, exec e w s (snd (do_writes rs s)) (fst (do_writes rs s)).
 Proof.
   induction rs as [|r rs IH]; intros s; cbn; [apply x_nil|].
-  pose proof (do_write_exec e w (fk_of (r_kind r)) (r_name r) (r_ver r) s) as H1.
-  destruct (do_write _ _ _ s) as [s1 l1]. specialize (IH s1).
+  pose proof (do_res_exec e w r s) as H1.
+  destruct (do_res r s) as [s1 l1]. specialize (IH s1).
   destruct (do_writes rs s1) as [s2 l2]. cbn in *. eapply exec_app; eassumption.
 Qed.
 
 Lemma do_deletes_exec e w k ns : forall s, exec e w s (snd (do_deletes k ns s)) (fst (do_deletes k ns s)).
 Proof.
   induction ns as [|n ns IH]; intros s; cbn; [apply x_nil|].
-  pose proof (do_delete_exec e w k n s) as H1.
-  destruct (do_delete k n s) as [s1 l1]. specialize (IH s1).
+  pose proof (do_del_exec e w k n s) as H1.
+  destruct (do_del k n s) as [s1 l1]. specialize (IH s1).
   destruct (do_deletes k ns s1) as [s2 l2]. cbn in *. eapply exec_app; eassumption.
 Qed.
 
@@ -241,8 +278,8 @@ Lemma endp_loop_exec e w rs : forall s,
   exec e w s (snd (fst (endp_loop e rs s))) (fst (fst (endp_loop e rs s))).
 Proof.
   induction rs as [|r rs IH]; intros s; cbn; [apply x_nil|].
-  pose proof (do_write_exec e w (fk_of (r_kind r)) (r_name r) (r_ver r) s) as H1.
-  destruct (do_write _ _ _ s) as [s1 l1]. cbn in H1.
+  pose proof (do_res_exec e w r s) as H1.
+  destruct (do_res r s) as [s1 l1]. cbn in H1.
   assert (H2 : exec e w s1
             (snd (fst (if plus e then do_api_groups e (is_stream (r_kind r)) (r_apis r) s1 else (s1, [], false))))
             (fst (fst (if plus e then do_api_groups e (is_stream (r_kind r)) (r_apis r) s1 else (s1, [], false))))).
@@ -267,8 +304,8 @@ Lemma step_exec e s o : exec e (forces_enable e o) s (log (snd (step e s o))) (f
 Proof.
   destruct o as [r|rs|rs al|k n sk|k rs| | |mv rs|fl|rs dl|rs dl|k ns|eg nm vr| ]; cbn [step].
   - (* OAdd *)
-    pose proof (do_write_exec e (forces_enable e (OAdd r)) (fk_of (r_kind r)) (r_name r) (r_ver r) s) as H1.
-    destruct (do_write _ _ _ s) as [s1 l1]. cbn [fst snd] in H1.
+    pose proof (do_res_exec e (forces_enable e (OAdd r)) r s) as H1.
+    destruct (do_res r s) as [s1 l1]. cbn [fst snd] in H1.
     unfold finish_reload.
     match goal with |- context [do_reload e false ?s2] =>
       pose proof (do_reload_exec e (forces_enable e (OAdd r)) false s2) as H2;
@@ -282,7 +319,7 @@ Proof.
     apply finish_reload_exec. exact H1.
   - pose proof (do_writes_exec e false rs s) as H1. destruct (do_writes rs s) as [s1 l1]. cbn [fst snd] in H1.
     destruct (existsb ev_changed l1 || al); [apply finish_reload_exec; exact H1|exact H1].
-  - pose proof (do_delete_exec e false (fk_of k) n s) as H1. destruct (do_delete _ n s) as [s1 l1]. cbn [fst snd] in H1.
+  - pose proof (do_del_exec e false (fk_of k) n s) as H1. destruct (do_del _ n s) as [s1 l1]. cbn [fst snd] in H1.
     destruct (match k with KTS => false | _ => sk end); [exact H1|apply finish_reload_exec; exact H1].
   - pose proof (endp_loop_exec e false rs s) as H1. destruct (endp_loop e rs s) as [[s1 l1] rp]. cbn [fst snd] in H1.
     destruct (plus e && negb rp); [exact H1|apply finish_reload_exec; exact H1].
@@ -330,7 +367,7 @@ Proof.
 Qed.
 
 Definition vs_with_weights : res :=
-  {| r_kind := KVS; r_name := "vs_default_w"; r_ver := 0; r_apis := [["vs_default_w_u0"; "vs_default_w_u1"]]; r_weights := 1 |}.
+  {| r_kind := KVS; r_name := "vs_default_w"; r_ver := 0; r_apis := [["vs_default_w_u0"; "vs_default_w_u1"]]; r_weights := 1; r_pt := None |}.
 
 Definition env_ok (p : bool) : env := {| plus := p; ro := fun _ => true; ao := fun _ => true; fx := no_fixes |}.
 
@@ -389,19 +426,45 @@ Proof.
   cbn [fst snd]. split; [reflexivity|]. destruct ex; reflexivity.
 Qed.
 
+Lemma do_pt_wd n pt s : forallb is_wd (snd (do_pt n pt s)) = true /\ enabled (fst (do_pt n pt s)) = enabled s.
+Proof.
+  unfold do_pt. destruct pt as [h|].
+  - match goal with |- context [do_write FTls "" ?v ?s0] => destruct (do_write_wd FTls "" v s0) as [A B] end. split; assumption.
+  - destruct (mem n (pairs s)); [|split; reflexivity].
+    match goal with |- context [do_write FTls "" ?v ?s0] => destruct (do_write_wd FTls "" v s0) as [A B] end. split; assumption.
+Qed.
+
+Lemma do_res_wd r s : forallb is_wd (snd (do_res r s)) = true /\ enabled (fst (do_res r s)) = enabled s.
+Proof.
+  unfold do_res. destruct (do_write_wd (fk_of (r_kind r)) (r_name r) (r_ver r) s) as [A B].
+  destruct (do_write _ _ _ s) as [s1 l1]. cbn [fst snd] in *.
+  destruct (r_kind r); try (split; assumption).
+  destruct (do_pt_wd (r_name r) (r_pt r) s1) as [C D]. destruct (do_pt _ _ s1) as [s2 l2]. cbn [fst snd] in *.
+  rewrite forallb_app, A, C. split; [reflexivity|congruence].
+Qed.
+
+Lemma do_del_wd k n s : forallb is_wd (snd (do_del k n s)) = true /\ enabled (fst (do_del k n s)) = enabled s.
+Proof.
+  unfold do_del. destruct (do_delete_wd k n s) as [A B].
+  destruct (do_delete k n s) as [s1 l1]. cbn [fst snd] in *.
+  destruct k; try (split; assumption).
+  destruct (do_pt_wd n None s1) as [C D]. destruct (do_pt _ _ s1) as [s2 l2]. cbn [fst snd] in *.
+  rewrite forallb_app, A, C. split; [reflexivity|congruence].
+Qed.
+
 Lemma do_writes_wd rs : forall s, forallb is_wd (snd (do_writes rs s)) = true /\ enabled (fst (do_writes rs s)) = enabled s.
 Proof.
   induction rs as [|r rs IH]; intros s; cbn; [split; reflexivity|].
-  destruct (do_write_wd (fk_of (r_kind r)) (r_name r) (r_ver r) s) as [A B].
-  destruct (do_write _ _ _ s) as [s1 l1]. destruct (IH s1) as [C D].
+  destruct (do_res_wd r s) as [A B].
+  destruct (do_res r s) as [s1 l1]. destruct (IH s1) as [C D].
   destruct (do_writes rs s1) as [s2 l2]. cbn in *. rewrite forallb_app, A, C, D, B. split; reflexivity.
 Qed.
 
 Lemma do_deletes_wd k ns : forall s, forallb is_wd (snd (do_deletes k ns s)) = true /\ enabled (fst (do_deletes k ns s)) = enabled s.
 Proof.
   induction ns as [|n ns IH]; intros s; cbn; [split; reflexivity|].
-  destruct (do_delete_wd k n s) as [A B].
-  destruct (do_delete k n s) as [s1 l1]. destruct (IH s1) as [C D].
+  destruct (do_del_wd k n s) as [A B].
+  destruct (do_del k n s) as [s1 l1]. destruct (IH s1) as [C D].
   destruct (do_deletes k ns s1) as [s2 l2]. cbn in *. rewrite forallb_app, A, C, D, B. split; reflexivity.
 Qed.
 
@@ -483,8 +546,8 @@ Lemma endp_loop_facts e rs : forall s,
 Proof.
   induction rs as [|r rs IH]; intros s; cbn.
   - repeat split; try reflexivity. intros _ _ _ H. contradiction.
-  - destruct (do_write_wd (fk_of (r_kind r)) (r_name r) (r_ver r) s) as [A B].
-    destruct (do_write _ _ _ s) as [s1 l1]. cbn in A, B.
+  - destruct (do_res_wd r s) as [A B].
+    destruct (do_res r s) as [s1 l1]. cbn in A, B.
     assert (H2 : let '(s', l, f) := (if plus e then do_api_groups e (is_stream (r_kind r)) (r_apis r) s1 else (s1, [], false)) in
                  forallb is_api l = true /\ enabled s' = enabled s1 /\ (f = false -> forallb api_ok l = true) /\
                  (plus e = true -> enabled s1 = true -> pushes r = true -> existsb is_api l = true)).
@@ -545,8 +608,8 @@ Proof.
   intros e s o.
   destruct o as [r|rs|rs al|k n sk|k rs| | |mv rs|fl|rs dl|rs dl|k ns|eg nm vr| ]; cbn [step is_gate skips endp_pushes is_endp].
   - (* OAdd *)
-    destruct (do_write_wd (fk_of (r_kind r)) (r_name r) (r_ver r) s) as [A _].
-    destruct (do_write _ _ _ s) as [s1 l1]. cbn in A.
+    destruct (do_res_wd r s) as [A _].
+    destruct (do_res r s) as [s1 l1]. cbn in A.
     match goal with |- context [finish_reload e false ?s2 l1] =>
       pose proof (tail_applied e false s2 l1 (plus e && false) (wd_wda _ A)) as H;
       destruct (finish_reload e false s2 l1) as [s' x] end.
@@ -561,7 +624,7 @@ Proof.
     + apply orb_false_elim in Ch. destruct Ch as [Ch _]. split.
       * intros _ _ _ _ _. unfold applied. cbn [log]. rewrite (wda_pend _ (wd_wda _ A)), Ch. reflexivity.
       * cbn. rewrite (wda_no_failed _ (wd_wda _ A)). split; discriminate.
-  - destruct (do_delete_wd (fk_of k) n s) as [A _]. destruct (do_delete _ n s) as [s1 l1]. cbn in A.
+  - destruct (do_del_wd (fk_of k) n s) as [A _]. destruct (do_del _ n s) as [s1 l1]. cbn in A.
     destruct (match k with KTS => false | _ => sk end) eqn:Sk.
     + split.
       * intros _ _ _ Hs _. destruct k; cbn in Hs; congruence.
